@@ -121,30 +121,39 @@ Section Calib.
   Definition update (old new : qval) : qval :=
     match old with QEmpty => new | _ => QUpd old new end.
 
-  (* one sample: the I/O operators are appended to the subgraph's operator
-     list on EVERY sample, so sample k visits ops ++ (k+1) copies of [I; O];
-     a tensor is updated at most once per sample *)
+  (* what one (selected) op contributes in sample k: every collected tensor is
+     folded into the store unless it was already updated in this sample *)
+  Definition sample_step (g : subgraph) (k : Z) (st : qstore * list name_t) (op : cop)
+    : res (qstore * list name_t) :=
+    let '(s, updated) := st in
+    match selected op with
+    | None => Ok (s, updated)
+    | Some (a, c, o) =>
+        a' <- algname_of a ;;
+        if negb (is_op_registered (AK a') o) then Err ValueError else
+        es <- collect_op (sg_tensors g) op a' k ;;
+        Ok (fold_left (fun st e =>
+              let '(s, upd) := st in
+              if existsb (name_eqb2 (fst e)) upd then (s, upd)
+              else match qs_get s (fst e) with
+                   | None => (qs_set s (fst e) (snd e), fst e :: upd)
+                   | Some old => (qs_set s (fst e) (update old (snd e)), fst e :: upd)
+                   end) es (s, updated))
+    end.
+
+  (* one sample labelled k, with [copies] copies of the virtual I/O operators
+     after the real ops; a tensor is updated at most once per sample *)
+  Definition one_sample_gen (m : model) (gi : Z) (g : subgraph) (ad : list bool)
+             (copies : nat) (k : Z) (s : qstore) : res qstore :=
+    let ops := real_cops gi (m_opcodes m) g ad ++ concat (repeat (io_cops gi g) copies) in
+    r <- foldM (sample_step g k) ops (s, []) ;;
+    Ok (fst r).
+
+  (* the implementation appends the I/O operators to the subgraph's operator
+     list on EVERY sample, so sample k visits ops ++ (k+1) copies of [I; O] *)
   Definition one_sample (m : model) (gi : Z) (g : subgraph) (ad : list bool) (k : Z)
              (s : qstore) : res qstore :=
-    let ops := real_cops gi (m_opcodes m) g ad
-               ++ concat (repeat (io_cops gi g) (Z.to_nat (k + 1))) in
-    r <- foldM (fun st op =>
-      let '(s, updated) := st in
-      match selected op with
-      | None => Ok (s, updated)
-      | Some (a, c, o) =>
-          a' <- algname_of a ;;
-          if negb (is_op_registered (AK a') o) then Err ValueError else
-          es <- collect_op (sg_tensors g) op a' k ;;
-          Ok (fold_left (fun st e =>
-                let '(s, upd) := st in
-                if existsb (name_eqb2 (fst e)) upd then (s, upd)
-                else match qs_get s (fst e) with
-                     | None => (qs_set s (fst e) (snd e), fst e :: upd)
-                     | Some old => (qs_set s (fst e) (update old (snd e)), fst e :: upd)
-                     end) es (s, updated))
-      end) ops (s, []) ;;
-    Ok (fst r).
+    one_sample_gen m gi g ad (Z.to_nat (k + 1)) k s.
 
   (* Quantizer.calibrate: fresh Calibrator; previous result deep-copied in;
      initialisation only when the store is empty *)
